@@ -61,7 +61,7 @@ def values():
 
 
 HEADER_NAMES = ["alg", "enc", "zip", "kid", "typ", "cty", "crit", "jku", "jwk", "x5u", "x5c", "x5t", "x5t#S256", "b64",
-                "epk", "apu", "apv", "p2s", "p2c", "iv", "tag", "skid", "foo"]
+                "epk", "apu", "apv", "p2s", "p2c", "iv", "tag", "skid", "foo", "\uff4b\uff49\uff44", "pre\u0301nom"]
 
 # ------------------------------------------------------------------ JWS seeds
 JWS_SEEDS = [("HS256", "oct32"), ("RS256", "rsa"), ("ES256", "P-256"), ("ES512", "P-521"), ("EdDSA", "Ed25519"), ("PS256", "rsa")]
